@@ -632,6 +632,10 @@ func (e *Engine) applyContract(st *State, c *Contract, fn *ssa.Function, sig *ty
 			// proved by the sibling contract of this function that does not forget the fact (see cmdCheck)
 			continue
 		}
+		if strings.HasPrefix(r.Label, "pkginit-") {
+			// established once by the callee's package initializer, not by callers (see Run)
+			continue
+		}
 		goal := e.evalBool(st, env, r.E)
 		e.addObl(st, fmt.Sprintf("%s.call-pre.%s.%s", e.oblPrefix(fr.fn), label, r.Label), "call-pre", c.Key+" requires "+r.Src, goal)
 		st.assume(goal)
